@@ -4137,6 +4137,83 @@ async fn heartbeat_loop(node: Arc<RaftNode>, mut shutdown_rx: tokio::sync::onesh
     }
 }
 
+/// Verification hook (compiled only with `--cfg neumann_verif`): canonical text dump of
+/// the protocol state, compared against the Lean model by /verif's correspondence harness.
+#[cfg(neumann_verif)]
+impl RaftNode {
+    #[must_use]
+    pub fn verif_dump(&self) -> String {
+        fn opt(v: Option<&NodeId>) -> String {
+            v.map_or_else(|| "-".to_string(), Clone::clone)
+        }
+        fn ids(v: &[NodeId]) -> String {
+            let mut n: Vec<u64> = v.iter().map(|s| s.parse().unwrap_or(u64::MAX)).collect();
+            n.sort_unstable();
+            if n.is_empty() {
+                "-".to_string()
+            } else {
+                n.iter().map(ToString::to_string).collect::<Vec<_>>().join(",")
+            }
+        }
+        fn pairs<T: Copy + Into<u64>>(m: &HashMap<NodeId, T>) -> String {
+            let mut n: Vec<(u64, u64)> = m
+                .iter()
+                .map(|(k, v)| (k.parse().unwrap_or(u64::MAX), (*v).into()))
+                .collect();
+            n.sort_unstable();
+            if n.is_empty() {
+                "-".to_string()
+            } else {
+                n.iter().map(|(k, v)| format!("{k}:{v}")).collect::<Vec<_>>().join(",")
+            }
+        }
+        let persistent = self.persistent.read();
+        let leadership = self.leadership.read();
+        let log = if persistent.log.is_empty() {
+            "-".to_string()
+        } else {
+            persistent
+                .log
+                .iter()
+                .map(|e| format!("{}:{}", e.term, e.block.header.height))
+                .collect::<Vec<_>>()
+                .join(",")
+        };
+        let index_ok = persistent
+            .log
+            .iter()
+            .enumerate()
+            .all(|(i, e)| e.index == i as u64 + 1 + persistent.log_base_index);
+        let role = match leadership.role {
+            RaftState::Follower => "F",
+            RaftState::Candidate => "C",
+            RaftState::Leader => "L",
+        };
+        let (ls, next, mat, bo) = leadership.leader_volatile.as_ref().map_or_else(
+            || ("0", "-".to_string(), "-".to_string(), "-".to_string()),
+            |l| ("1", pairs(&l.next_index), pairs(&l.match_index), pairs(&l.backoff_failures)),
+        );
+        format!(
+            "t={} v={} r={} l={} c={} pv={} log={} votes={} pvotes={} ls={} next={} match={} bo={}{}",
+            persistent.current_term,
+            opt(persistent.voted_for.as_ref()),
+            role,
+            opt(leadership.current_leader.as_ref()),
+            self.volatile.read().commit_index,
+            u8::from(*self.in_pre_vote.read()),
+            log,
+            ids(&self.votes_received.read()),
+            ids(&self.pre_votes_received.read()),
+            ls,
+            next,
+            mat,
+            bo,
+            if index_ok && persistent.log_base_index == 0 { "" } else { " INDEX-MISMATCH" },
+        )
+    }
+}
+
+
 #[cfg(test)]
 #[allow(clippy::field_reassign_with_default)]
 mod tests {
